@@ -42,6 +42,40 @@ def check(chk):
     ok = len(too) == 1 and all(fa.knows('col_meta_len < value_len') is True for fa, _ in fl.at(too[0]))
     s = src(bind)
     chk.judge(ok and 'value_len = len(values)' in s and 'col_meta_len = len(col_meta)' in s, 'C30.arity', bind, 'len(values) > len(col_meta) -> ValueError', 'extra positional values are accepted')
+    # pre-v4 short sequences: nothing becomes UNSET there, so a sequence that does not reach the highest partition-key marker is refused here
+    chk.rule('C30.short', 'below protocol 4 a positional sequence that stops before the highest routing-key index is rejected (compared with max(routing_key_indexes), not their count)')
+    few = [n for n in g.nodes if n.kind == 'raise_stmt' and 'Too few arguments' in src(n.ast)]
+    if len(few) != 1:
+        raise AnalysisError('bind: the pre-v4 "Too few arguments" rejection was not found')
+    okv = all(fa.knows('proto_version < 4') is True for fa, _ in fl.at(few[0]))
+    guard_if = parent(few[0].ast)
+    cmps = [c for c in ast.walk(guard_if.test) if isinstance(c, ast.Compare) and any(isinstance(x, ast.Name) and x.id == 'value_len' for x in ast.walk(c))] if isinstance(guard_if, ast.If) else []
+    verdict, counter = False, None
+    if len(cmps) == 1:
+        class _Sub(ast.NodeTransformer):
+            def visit_Call(self, node):
+                if isinstance(node.func, ast.Name) and node.func.id in ('max', 'len') and len(node.args) == 1 and src(node.args[0]).endswith('routing_key_indexes'):
+                    return ast.copy_location(ast.Name(id='M' if node.func.id == 'max' else 'L', ctx=ast.Load()), node)
+                return self.generic_visit(node)
+        import copy as _copy
+        e = _Sub().visit(_copy.deepcopy(cmps[0]))
+        names = set(x.id for x in ast.walk(e) if isinstance(x, ast.Name))
+        if names <= set(['M', 'L', 'value_len']) and all(isinstance(x, (ast.Compare, ast.BinOp, ast.Name, ast.Constant, ast.Load, ast.cmpop, ast.operator)) for x in ast.walk(e)):
+            code = compile(ast.fix_missing_locations(ast.Expression(e)), '<C30.short>', 'eval')
+            verdict = True
+            import itertools as _it
+            for idx in [c for r in (1, 2, 3) for c in _it.combinations(range(4), r)]:
+                for V in range(0, 6):
+                    got = bool(eval(code, {'__builtins__': {}}, {'M': max(idx), 'L': len(idx), 'value_len': V}))
+                    if got != (V <= max(idx)):
+                        verdict, counter = False, (idx, V, got)
+                        break
+                if not verdict:
+                    break
+    chk.judge(okv and verdict, 'C30.short', few[0].ast, 'below v4: value count <= highest routing-key index -> ValueError (decided over index sets within 0..3, 0..5 values)',
+              'the guard %s lets a short sequence through: routing_key_indexes %s with %s value(s) is %s although marker %s is unbound - bind succeeds, nothing is UNSET below v4, '
+              'and routing_key raises IndexError when the statement is executed' % (src(guard_if.test)[:120] if isinstance(guard_if, ast.If) else '?', list(counter[0]) if counter else '?',
+                                                                                 counter[1] if counter else '?', 'rejected' if counter and counter[2] else 'accepted', max(counter[0]) if counter else '?'))
     # main loop
     loops = [n for n in body_walk(bind) if isinstance(n, ast.For) and src(n.iter) == 'zip(values, col_meta)']
     if len(loops) != 1:
